@@ -17,6 +17,28 @@ Definition code_params : params :=
 Definition run_request_gen (P : params) (W : world) (ri : rinfo) : list event :=
   run_request_x W ri (main_handler_pm P W ri) (gen_iev P W ri) (gen_excview_tween P W ri site_tween).
 
+(* the subrequest scenario built from the REGENERATED functions *)
+Definition run_request_sub_gen (P : params) (W : world) (ri : rinfo) (tweens : bool) : list event :=
+  run_request_sub W ri tweens (main_handler_pm P W (sub_ri ri))
+    (gen_excview_tween P W (sub_ri ri) site_tween) (gen_excview_tween P W ri site_tween).
+
+(* under program [4, ut] on the wire = the subrequest scenario: the outer request itself is never dispatched
+   (its rinfo says URaise), [ut] = use_tweens as passed ([] = not passed) *)
+Definition get_rinfo_s (v : val) : option (N * rinfo * option (option bool)) :=
+  match v with
+  | VL [ph; rq; rq2; comb; unr; deny; rootr; VL [VI 4%Z; ut]; pre] =>
+      olet ut := get_opt get_bool ut in
+      olet r := get_rinfo (VL [ph; rq; rq2; comb; unr; deny; rootr; VL [VI 1%Z; VI 0%Z]; pre]) in
+      Some (r, Some ut)
+  | _ => olet r := get_rinfo v in Some (r, None)
+  end.
+
+(* the whole judge of the property: rendering (judge) + raising site (judge_site) *)
+Definition judge_all (tolerant : bool) (sregs : list reg) (W : world) (ri : rinfo) (sub : option (option bool))
+    (evs : list event) : bool :=
+  judge_gen tolerant sregs W ri evs
+  && judge_site W (match sub with Some ut => site_mode_sub ut | None => site_mode_of (ri_under ri) end) evs.
+
 (* case = [named; [decl ...]; [exc ...]; [rinfo ...]; observed]   observed = [] or [[event ...] per request]
    answer = [[model trace; judge of the model trace; judge of the observed trace (1/0; 2 when none given);
               winners (tags) of the exception arriving at the excview tween in the model;
@@ -29,29 +51,33 @@ Definition run_C14 (v : val) : val :=
         olet nm := get_named nm in
         olet decls := get_list_of (get_decl gen_isexception) decls in
         olet excs := get_list_of get_exc excs in
-        olet reqs := get_list_of get_rinfo reqs in
+        olet reqs := get_list_of get_rinfo_s reqs in
         olet observed := get_list_of get_list observed in
         let names := pred_names in
         let bodies := bodies_of code_params nm decls in
         let sbodies := bodies_of spec_params nm decls in
         Some (VL (map (fun ir =>
-           let '(i, (ph, ri)) := ir in
+           let '(i, (ph, ri, sub)) := ir in
            let W := mkWorld (register_all accept_order_default (regs_upto code_params names nm decls ph)) bodies excs
                               containment_reads_request_context physical_path_reads_request_context in
            let SW := mkWorld reg_empty sbodies excs true false in
            let sregs := regs_upto spec_params names nm decls ph in
-           let tr := run_request_gen code_params W ri in
-           let tr_ref := run_request_pm code_params W ri in
+           let tr := match sub with
+                     | Some ut => run_request_sub_gen code_params W ri (sub_tweens subrequest_use_tweens_default ut)
+                     | None => run_request_gen code_params W ri end in
+           let tr_ref := match sub with
+                         | Some ut => run_request_sub_m code_params W ri (sub_tweens subrequest_use_tweens_default ut)
+                         | None => run_request_pm code_params W ri end in
            let arriving := match split_probe tr [] with
                            | Some (_, Raise e, _, _) =>
                                put_tags (spec_winners exc_classifier_id sregs (exc_request spec_params SW ri e))
                            | _ => VL [] end in
            VL [VL (map (put_event W) tr);
-               vbool (judge sregs SW ri tr);
+               vbool (judge_all false sregs SW ri sub tr);
                match nth_error observed i with
                | Some ob =>
                    match map_opt get_event ob with
-                   | Some evs => vbool (judge sregs SW ri evs && forallb (event_status_ok SW) ob)
+                   | Some evs => vbool (judge_all false sregs SW ri sub evs && forallb (event_status_ok SW) ob)
                    | None => VI 0
                    end
                | None => VI 2
@@ -60,7 +86,7 @@ Definition run_C14 (v : val) : val :=
                match nth_error observed i with
                | Some ob =>
                    match map_opt get_event ob with
-                   | Some evs => vbool (judge_gen true sregs SW ri evs && forallb (event_status_ok SW) ob)
+                   | Some evs => vbool (judge_all true sregs SW ri sub evs && forallb (event_status_ok SW) ob)
                    | None => VI 0
                    end
                | None => VI 2
